@@ -26,12 +26,17 @@ FIELD_MAP = [("PLID", ("Private Header", "Platform Log Id")), ("CreatorID", ("Pr
 
 def plan(tier, seed):
     n = 45 if tier == "quick" else 900
-    return [{"mode": "dirs", "n": n, "rseed": seed * 1000 + i, "registry": i % 3 != 2} for i in range(16)]
+    specs = [{"mode": "dirs", "n": n, "rseed": seed * 1000 + i, "registry": i % 3 != 2} for i in range(14)]
+    # the same relations with every peltool invocation in a FRESH process (nothing carried over between the modes), on
+    # directories whose PELs share component ids across creator classes
+    m = 12 if tier == "quick" else 150
+    specs += [{"mode": "fresh", "n": m, "rseed": seed * 1000 + 500 + i, "registry": i == 0} for i in range(2)]
+    return specs
 
 
 def minimums(tier):
     return {"agree.checked": 2000, "order.checked": 2000, "reverse.checked": 400, "extension.checked": 400,
-            "fields.compared": 20000, "hex.checked": 300, "src.compared": 2000}
+            "fields.compared": 20000, "hex.checked": 300, "src.compared": 2000, "fresh.process_runs": 40}
 
 
 def rand_sel(rng):
@@ -51,6 +56,8 @@ def run(spec, ctx):
     u = pm.Uniq(spec["shard"] * 10_000_000)
     reg = harness.registry_model()
     root = harness.scratch_root()
+    if spec["mode"] == "fresh":
+        return run_fresh(spec, ctx, rng, u, reg, root)
     for i in range(spec["n"]):
         n = rng.choice([0, 1, 2, 3, 5, 8, 13, 20, 40]) if rng.random() < 0.6 else rng.randrange(0, 25)
         d = dirs.PelDir(os.path.join(root, "d%d" % i))
@@ -71,7 +78,40 @@ def run(spec, ctx):
         d.remove()
 
 
+FRESH = [False]
+
+
+def run_fresh(spec, ctx, rng, u, reg, root):
+    FRESH[0] = True
+    for i in range(spec["n"]):
+        comp = rng.choice([0x4142, 0x4842, 0x2000, 0x5A5A])
+        ents = dirs.gen_dir_model(rng, u, rng.randrange(2, 7), reg=reg, with_ps=0.8)
+        for e in ents:
+            # one component id used by PELs of several creator classes (PHYP shows it as two characters, others as hex / a name)
+            if rng.random() < 0.7:
+                e.pel.ph["comp"] = comp
+            if rng.random() < 0.5:
+                e.pel.uh["comp"] = comp
+            if rng.random() < 0.5:
+                e.pel.sections.append(pm.sec_ud(rng, u, e.pel.creator, comp, 1, 1, pm.gen_payload(rng, u, 8),
+                                                 ext_creator=rng.choice("HOB")))
+            e.data = e.pel.encode()
+        d = dirs.PelDir(os.path.join(root, "f%d" % i))
+        d.extend(ents)
+        for o, variant in ((Sel(every=True), "plain"), (Sel(every=True), "-r"), (rand_sel(rng), "plain")):
+            check_dir(ctx, d, ents, o, variant, ".pel", i, spec)
+        d.remove()
+
+
 def run_cli(ctx, argv):
+    if FRESH[0]:
+        p = harness.cli_sub(argv)
+        ctx.count("fresh.process_runs")
+        if p is None or p.returncode != 0:
+            ctx.violation("C08/cli-failed", "peltool %s (fresh process): rc=%s %s" %
+                          (argv[2:], getattr(p, "returncode", "watchdog"), (p.stderr if p else b"")[-300:]))
+            return None
+        return p.stdout.decode("utf-8", "replace")
     rc, out, err, tb = harness.cli(argv)
     if tb or rc != 0:
         ctx.violation("C08/cli-failed", "peltool %s: rc=%s %s" % (argv[2:], rc, (tb or err)[-400:]))
